@@ -1080,7 +1080,9 @@ class HeteroscedasticConditional(conditional.ConditionalGaussianPDF):
     
     def _get_omega_star(self, p_x: pdf.GaussianPDF, y: jnp.ndarray, W_i: Float[Array, "Dx+1"], a_i: Float[Array, "Dy"]):
         omega_star = self._get_omega_dagger(p_x=p_x, W_i=W_i)
-        omega_dagger = omega_star
+        # "previous iterate" of the fixed-point iteration; it must differ from the start value,
+        # otherwise the convergence test is met before the first update and the loop never runs.
+        omega_dagger = jnp.full_like(omega_star, jnp.inf)
         iteration = 0
         cond_func = lambda val: jnp.logical_and(jnp.max(jnp.abs(val[0] - val[1])) > 1e-5, val[2] < 100)
         
@@ -1091,7 +1093,10 @@ class HeteroscedasticConditional(conditional.ConditionalGaussianPDF):
     
     def _update_omega_star(self, p_x: pdf.GaussianPDF, y: Float[Array, "N Dy"], W_i: Float[Array, "Dx+1"], a_i: Float[Array, "Dy"], omega_star: Float[Array, "N"]) -> Float[Array, "N"]:      
         quadratic_integral, quartic_integral = self._lower_bound_integrals(p_x=p_x, y=y, W_i=W_i, a_i=a_i, omega_star=omega_star, compute_fourth_order=True)
-        omega_star = jnp.sqrt(quartic_integral / quadratic_integral)[0]
+        # If the projected residual vanishes identically the bound does not depend on omega: keep it.
+        is_positive = quadratic_integral > 0.
+        ratio = quartic_integral / jnp.where(is_positive, quadratic_integral, 1.)
+        omega_star = jnp.where(is_positive, jnp.sqrt(ratio), omega_star[None])[0]
         return omega_star
     
 @dataclass(kw_only=True)
